@@ -245,3 +245,14 @@ package heapq
 //@   modifies calls(f)
 //@   loop 1: invariant count: ncalls(f) == old(ncalls(f)) + it1
 //@   loop 1: invariant args: forall i int :: 0 <= i && i < it1 ==> callarg(f, old(ncalls(f)) + i) == q.data[i] && callret(f, old(ncalls(f)) + i)
+//@
+// Sort: a heap under the reversed comparison over the caller's slice, popped until empty (every Pop moves the greatest
+// remaining element to the end of the shrinking heap). Proved here: no panic, termination, nothing outside vs is
+// written. "Sorted permutation" is a bounded stand-in: the loop argument needs that the elements Pop leaves in the
+// heap were in it before, and the heap contracts state that for the multiset only.
+//@ func Sort
+//@   role cmp ord
+//@   ensures [C05] outside: unchanged_outside(vs)
+//@   modifies elems(vs), rep
+//@   loop 1: invariant [C05] heap: q != nil && fresh(q) && heapOK(q) && q.data.base == vs.base && q.data.off == vs.off && len(q.data) <= len(vs) && unchanged_outside(vs)
+//@   loop 1: decreases len(q.data)
